@@ -541,14 +541,14 @@ def work(chunk):
     sub = core.Sub()
     cnt = {}
     distinct = 0
+    errors = []
     for idx, spec in chunk:
         accepted_somewhere = False
         for dialect in DIALECTS:
             try:
                 status, P = evaluate(spec, dialect, cnt)
             except Exception as e:
-                sub.violation('harness:%s:%s' % (dialect, type(e).__name__), dict(spec=spec, dialect=dialect),
-                              'internal error in the check: ' + traceback.format_exc()[-600:])
+                errors.append('%s on %s: %s\n%s' % (type(e).__name__, dialect, traceback.format_exc()[-700:], space.render(spec)))
                 continue
             sub.count('evaluations')
             sub.count('%s:%s' % (dialect, status.split(':')[0]))
@@ -565,6 +565,7 @@ def work(chunk):
         if accepted_somewhere: distinct += 1
     d = sub.dump()
     d['distinct'] = distinct
+    d['errors'] = errors[:3]
     for k, v in cnt.items(): d['counters']['checked_' + k] = v
     return d
 
@@ -604,6 +605,7 @@ def run(ctx):
         for d in ctx.pmap(work, chunks):
             core.absorb(ctx, d)
             distinct += d['distinct']
+            if d['errors']: raise core.HarnessError('internal error in the C26 oracle: ' + d['errors'][0])
     finally:
         shutil.rmtree(ROOT, True)
     collapse_dialects(ctx)
